@@ -499,6 +499,7 @@ def run(ctx) -> list[Inst]:
                          f"that part of the source does not reach the specification"),
                     file=rel, line=f.node.lineno, props=PROPS))
     insts += _string_tokens(ctx, visitor, rel)
+    insts += _left_assoc(ctx, visitor, rel)
     insts += _classification(ctx, visitor, rel)
     insts += _dedupe(ctx, visitor, rel)
     return insts
@@ -571,7 +572,51 @@ def _classification(ctx, visitor, rel):
         return [Inst(RULE, f.short, construct, 'unproven', msg='upward walk not recognised', file=rel,
                      line=f.node.lineno, props=PROPS)]
     if stops == ['ReachesContext']:
-        return [Inst(RULE, f.short, construct, 'ok', file=rel, line=f.node.lineno, props=PROPS)]
+        out = [Inst(RULE, f.short, construct, 'ok', file=rel, line=f.node.lineno, props=PROPS)]
+        # (e2) the scan for a following '.' runs to the end of THAT clause (cut at the next comma): an expression can
+        # be nested arbitrarily deep in parentheses, `(a.b \/ c).d.e`, so a bound taken a fixed number of parents up
+        # (ctx.parentCtx.parentCtx = the nearest expr) ends before the dot that follows the closing parenthesis
+        walked = set()
+        for n in own_nodes(f.node):
+            if isinstance(n, ast.While):
+                for x in ast.walk(n):
+                    if isinstance(x, ast.Assign) and isinstance(x.targets[0], ast.Name):
+                        walked.add(x.targets[0].id)
+        construct2 = '(e) the scan for a following dot ends with the enclosing reaches clause'
+        verdict = None
+        for n in own_nodes(f.node):
+            if isinstance(n, ast.For) and isinstance(n.iter, ast.Call) and isinstance(n.iter.func, ast.Name) \
+                    and n.iter.func.id == 'range' and len(n.iter.args) == 2:
+                hi = n.iter.args[1]
+                names = [x.id for x in ast.walk(hi) if isinstance(x, ast.Name)]
+                if 'stop' not in stmt_text(hi):
+                    continue
+                bound_var = names[0] if names else None
+                if bound_var in walked:
+                    verdict = ('ok', n, '')
+                else:
+                    # a local bound to a fixed chain of parents?
+                    fixed = None
+                    for x in own_nodes(f.node):
+                        if isinstance(x, ast.Assign) and isinstance(x.targets[0], ast.Name) and x.targets[0].id == bound_var \
+                                and 'parentCtx' in stmt_text(x.value):
+                            fixed = x
+                    if fixed is not None or 'parentCtx' in stmt_text(hi):
+                        verdict = ('violation', n,
+                                   f"the scan stops at '{stmt_text(hi, 60)}', where {bound_var} is "
+                                   f"'{stmt_text(fixed.value, 50) if fixed is not None else 'a fixed parent'}', a fixed number "
+                                   f"of levels above the name - not the clause found by the upward walk: for a name inside "
+                                   f"parentheses the dot after the closing parenthesis is not seen and the name is "
+                                   f"compiled as an attackStep instead of a field")
+                    else:
+                        verdict = ('unproven', n, 'scan bound not recognised')
+        if verdict is None:
+            out.append(Inst(RULE, f.short, construct2, 'unproven', msg='token scan not recognised', file=rel,
+                            line=f.node.lineno, props=PROPS))
+        else:
+            out.append(Inst(RULE, f.short, construct2, verdict[0], msg=verdict[2], file=rel, line=verdict[1].lineno,
+                            props=PROPS))
+        return out
     return [Inst(
         RULE, f.short, construct, 'violation',
         msg=(f"the walk towards the enclosing clause stops at {stops}: names in a clause other than a reaches "
@@ -635,3 +680,57 @@ def _dedupe(ctx, visitor, rel):
         out.append(Inst(RULE, f.short, construct, 'unproven', msg='de-duplication idiom not recognised', file=rel,
                         line=f.node.lineno, props=PROPS))
     return out
+
+
+def _left_assoc(ctx, visitor, rel) -> list[Inst]:
+    """(j) MAL's binary chains are left-associative: `a - b - c` is `(a - b) - c`, `a.b.c` is `(a.b).c`.  In the loop
+    that folds the operands of visitExpr / visitParts the value accumulated so far must become the 'lhs' of the next
+    node and the freshly visited operand its 'rhs'.  Decided part: which of the two keys receives a loop-carried name."""
+    insts = []
+    for vname in ('visitExpr', 'visitParts'):
+        f = visitor.methods.get(vname)
+        if f is None:
+            continue
+        construct = f'(j) {vname}: the accumulated result is the LEFT operand of the next operation'
+        found = []
+        for lp in own_nodes(f.node):
+            if not isinstance(lp, (ast.For, ast.While)):
+                continue
+            assigned = {t.id for st in ast.walk(lp) if isinstance(st, ast.Assign) for tg in st.targets
+                        for t in ast.walk(tg) if isinstance(t, ast.Name)}
+            # names mutated as containers (ret["lhs"] = ..) count as carried as well
+            assigned |= {st.targets[0].value.id for st in ast.walk(lp) if isinstance(st, ast.Assign)
+                         and isinstance(st.targets[0], ast.Subscript) and isinstance(st.targets[0].value, ast.Name)}
+            vals = {}
+            for n in ast.walk(lp):
+                if isinstance(n, ast.Dict):
+                    for k, v in zip(n.keys, n.values):
+                        if isinstance(k, ast.Constant) and k.value in ('lhs', 'rhs'):
+                            vals.setdefault(k.value, []).append(v)
+                if isinstance(n, ast.Assign) and isinstance(n.targets[0], ast.Subscript) \
+                        and isinstance(n.targets[0].slice, ast.Constant) and n.targets[0].slice.value in ('lhs', 'rhs'):
+                    vals.setdefault(n.targets[0].slice.value, []).append(n.value)
+            if 'lhs' in vals and 'rhs' in vals:
+                def carried(v):
+                    if isinstance(v, ast.Call) and isinstance(v.func, ast.Attribute) and v.func.attr == 'copy':
+                        v = v.func.value
+                    return isinstance(v, ast.Name) and v.id in assigned
+                found.append((lp, any(carried(v) for v in vals['lhs']), any(carried(v) for v in vals['rhs']), vals))
+        if not found:
+            insts.append(Inst(RULE, f.short, construct, 'unproven', msg='no folding loop with lhs / rhs keys recognised',
+                              file=rel, line=f.node.lineno, props=PROPS))
+            continue
+        for lp, l_acc, r_acc, vals in found:
+            if r_acc and not l_acc:
+                insts.append(Inst(
+                    RULE, f.short, construct, 'violation',
+                    msg=(f"in the folding loop the value accumulated so far is stored under 'rhs' "
+                         f"('{stmt_text(vals['rhs'][0], 50)}') and the new operand under 'lhs': chains nest to the right, "
+                         f"`a - b - c` compiles to a - (b - c) instead of (a - b) - c"),
+                    file=rel, line=lp.lineno, props=PROPS))
+            elif l_acc and not r_acc:
+                insts.append(Inst(RULE, f.short, construct, 'ok', file=rel, line=lp.lineno, props=PROPS))
+            else:
+                insts.append(Inst(RULE, f.short, construct, 'unproven', msg='accumulator not identified',
+                                  file=rel, line=lp.lineno, props=PROPS))
+    return insts
